@@ -19,7 +19,7 @@ from . import common
 from . import c15_sched as S
 
 PROPERTY = 'C15'
-LEAN_TARGETS = ['CpProofs.C15', 'CpProofs.C15Conc', 'drv_c15']
+LEAN_TARGETS = ['CpProofs.C15', 'CpProofs.C15Conc', 'CpProofs.C15Hdr', 'drv_c15']
 DRIVER = 'drv_c15'
 THEOREMS = [
     'CpProofs.C15.C15_hit_genuine',
@@ -65,6 +65,29 @@ THEOREMS = [
     'CpProofs.C15Conc.C15_conc_invalidate_race_witness',
     'CpProofs.C15Conc.C15_conc_negative_age_witness',
     'CpProofs.C15Conc.C15_conc_timeout_overwrite_witness',
+    # header layer (CpModel.CacheHdr): tokenisation of Cache-Control / Pragma / Vary, key folding, validate_since
+    # on a hit, the expires tool
+    'CpProofs.C15Hdr.C15_raw_cc_no_cache',
+    'CpProofs.C15Hdr.C15_raw_pragma_no_cache',
+    'CpProofs.C15Hdr.C15_raw_no_store',
+    'CpProofs.C15Hdr.C15_raw_vary',
+    'CpProofs.C15Hdr.C15_title_idempotent',
+    'CpProofs.C15Hdr.C15_vary_name_folded',
+    'CpProofs.C15Hdr.C15_vary_name_case',
+    'CpProofs.C15Hdr.C15_vary_star_is_a_name',
+    'CpProofs.C15Hdr.values_noquote',
+    'CpProofs.C15Hdr.splitOnComma_join',
+    'CpProofs.C15Hdr.splitOnComma_no_comma',
+    'CpProofs.C15Hdr.strip_spec',
+    'CpProofs.C15Hdr.C15_producer_found',
+    'CpProofs.C15Hdr.C15_not_modified_justified',
+    'CpProofs.C15Hdr.C15_precondition_failed_justified',
+    'CpProofs.C15Hdr.C15_final_from_hit',
+    'CpProofs.C15Hdr.C15_expires_zero_force',
+    'CpProofs.C15Hdr.C15_expires_no_indicator',
+    'CpProofs.C15Hdr.C15_expires_keeps_existing',
+    'CpProofs.C15Hdr.C15_expires_prevents_store',
+    'CpProofs.C15Hdr.C15_expires_zero_app',
 ]
 LEVEL = 'proof'
 TECHNIQUE = ('Lean 4 proof: store invariant by induction over all request histories of a transcription of '
@@ -210,17 +233,24 @@ class _Env:
                 plan = env.tls.plan
                 resp = cherrypy.serving.response
                 h = resp.headers
-                if plan['vary']:
-                    h['Vary'] = ', '.join(plan['vary'])
+                vary, rcc, rpr, lm = plan_resp_headers(plan)
+                if vary:
+                    h['Vary'] = vary
                 h['X-Gen'] = str(g)
-                if plan['ns']:
-                    h['Cache-Control'] = 'no-store'
-                if plan['pnc']:
-                    h['Pragma'] = 'no-cache'
+                if rcc:
+                    h['Cache-Control'] = rcc
+                if rpr:
+                    h['Pragma'] = rpr
+                if lm:
+                    h['Last-Modified'] = lm
+                if plan.get('etag'):
+                    h['ETag'] = '"g%d"' % g
+                if plan.get('exp'):
+                    h['Expires'] = 'Thu, 01 Jan 2026 00:00:00 GMT'
                 req = cherrypy.serving.request
                 size = plan['size']
                 body = (b'g%d;' % g).ljust(size, b'.') if size else b''
-                env.tls.prod = {'gen': g, 'hdrs': {k: req.headers.get(k, '') for k in HDRS}, 'body': body,
+                env.tls.prod = {'gen': g, 'hdrs': {k.lower(): v for k, v in req.headers.items()}, 'body': body,
                                 'time': resp.time}
                 mode = plan.get('mode', 'plain')
                 if mode == 'exc':
@@ -269,6 +299,9 @@ class _Env:
                       'tools.encode.on': bool(cfg.get('encode')),
                       'request.show_tracebacks': False,
                       'hooks.on_end_resource': self.end_hook}}
+        if cfg.get('expires') is not None:
+            conf['/'].update({'tools.expires.on': True, 'tools.expires.secs': cfg['expires']['secs'],
+                              'tools.expires.force': bool(cfg['expires']['force'])})
         if cfg.get('cache_class') is not None:
             conf['/']['tools.caching.cache_class'] = cfg['cache_class']
         return self.cherrypy.Application(self.root, '', conf)
@@ -282,11 +315,12 @@ class _Env:
 
     def call(self, app, method, path, qs, headers, abandon=None):
         environ = {'REQUEST_METHOD': method, 'PATH_INFO': path, 'QUERY_STRING': qs, 'SCRIPT_NAME': '',
-                   'SERVER_NAME': 'h', 'SERVER_PORT': '80', 'SERVER_PROTOCOL': 'HTTP/1.1', 'HTTP_HOST': 'h',
+                   'SERVER_NAME': 'h', 'SERVER_PORT': '80', 'SERVER_PROTOCOL': getattr(self.tls, 'proto', 'HTTP/1.1'),
+                   'HTTP_HOST': 'h',
                    'wsgi.version': (1, 0), 'wsgi.url_scheme': 'http', 'wsgi.input': io.BytesIO(b''),
                    'wsgi.errors': sys.stderr, 'wsgi.multithread': False, 'wsgi.multiprocess': False,
                    'wsgi.run_once': False}
-        if method in ('POST', 'PUT'):
+        if method in ('POST', 'PUT', 'PATCH'):
             environ['CONTENT_LENGTH'] = '0'
         for k, v in headers.items():
             environ['HTTP_' + k.upper().replace('-', '_')] = v
@@ -335,15 +369,61 @@ class _Env:
         return self._errsize[status]
 
 
+def _raw(x):
+    """A header value of an op: None = absent, a list = its elements joined the usual way, a str = as it is."""
+    if x is None:
+        return ''
+    if isinstance(x, (list, tuple)):
+        return ', '.join(x)
+    return x
+
+
 def req_headers(op):
-    """The HTTP request headers of an R op."""
+    """The HTTP request headers of an R op (all of them, names as sent)."""
     _, method, path, qs, hdrs, pragma, cc, plan = op
     h = dict(hdrs)
-    if pragma:
-        h['Pragma'] = ', '.join(pragma)
-    if cc:
-        h['Cache-Control'] = ', '.join(cc)
+    if _raw(pragma):
+        h['Pragma'] = _raw(pragma)
+    if _raw(cc):
+        h['Cache-Control'] = _raw(cc)
     return h
+
+
+def plan_resp_headers(plan):
+    """Raw values of the response headers the probe handler sets: Vary, Cache-Control, Pragma, Last-Modified
+    ('' = header not set)."""
+    vary = plan.get('vary_raw')
+    if vary is None:
+        vary = ', '.join(plan['vary'])
+    rcc = plan.get('rcc_raw')
+    if rcc is None:
+        rcc = 'no-store' if plan['ns'] else ''
+    rpr = plan.get('rpragma_raw')
+    if rpr is None:
+        rpr = 'no-cache' if plan['pnc'] else ''
+    return vary, rcc, rpr, plan.get('lastmod') or ''
+
+
+def otokens(raw):
+    """The oracle's reading of a comma-separated header value, from HTTP's list syntax: elements separated by
+    commas outside quoted strings, optional SP / HTAB around them.  None when the value is not well-formed for
+    that purpose (unbalanced quotes, backslashes): then the statement demands nothing of it."""
+    if not raw:
+        return []
+    if raw.count('"') % 2 or '\\' in raw:
+        return None
+    out, cur, inq = [], '', False
+    for ch in raw:
+        if ch == '"':
+            inq = not inq
+            cur += ch
+        elif ch == ',' and not inq:
+            out.append(cur.strip(' \t'))
+            cur = ''
+        else:
+            cur += ch
+    out.append(cur.strip(' \t'))
+    return out
 
 
 def do_request(env, app, op, prods):
@@ -373,12 +453,15 @@ def do_request(env, app, op, prods):
             pbody = p['body'].decode('latin-1') if status == 200 + p['gen'] % 3 else None
         else:
             pbody = o['body']
-        prods[p['gen']] = {'gen': p['gen'], 'url': [path, qs], 'hdrs': p['hdrs'], 'time': p['time'],
+        # the header values of the producing request as they were SENT (not as cherrypy read them)
+        sent = {k.lower(): v.strip(' \t') for k, v in req_headers(op).items()}
+        prods[p['gen']] = {'gen': p['gen'], 'url': [path, qs], 'hdrs': sent, 'time': p['time'],
                            'status': status, 'headers': o['headers'], 'body': pbody,
                            'complete': not aborted and not abandoned,
-                           'vary': [v.strip() for v in hd.get('Vary', '').split(',') if v.strip()],
-                           'req_no_store': bool(cc) and 'no-store' in cc,
-                           'resp_no_store': bool(plan['ns'])}
+                           'vary': [v for v in (otokens(hd.get('Vary', '')) or []) if v],
+                           'lastmod': hd.get('Last-Modified'),
+                           'req_no_store': 'no-store' in (otokens(_raw(cc)) or []),
+                           'resp_no_store': 'no-store' in (otokens(hd.get('Cache-Control', '')) or [])}
     return o
 
 
@@ -390,6 +473,7 @@ def run_history(case):
     env.clock.now = T0
     env.cur = {'gen': 0, 'plan': None}
     app = env.new_app(case['cfg'])
+    env.tls.proto = 'HTTP/1.0' if (case['cfg'].get('expires') or {}).get('http10') else 'HTTP/1.1'
     obs, prods = [], {}
     try:
         for op in case['ops']:
@@ -415,6 +499,7 @@ def run_history(case):
             final = {'cur': c.cursize, 'vals': vals, 'uris': len(c.store)}
         return {'obs': obs, 'prods': prods, 'final': final}
     finally:
+        env.tls.proto = 'HTTP/1.1'
         env.drop_cache()
 
 
@@ -738,7 +823,7 @@ def oracle_conc(scn, res):
     vary_seen = {}
     for g, p in prods.items():
         if p['status'] < 500:
-            vary_seen.setdefault(tuple(p['url']), set()).add(tuple(sorted(p['vary'])))
+            vary_seen.setdefault(tuple(p['url']), set()).add(tuple(sorted({v.lower() for v in p['vary']})))
     for k, o in sorted(res['obs'].items()):
         if o is None:
             continue
@@ -747,7 +832,7 @@ def oracle_conc(scn, res):
         url = (path, qs)
         if o['handler_gen'] is not None and o['flags'] and o['flags'][0]:
             bad.append(('thread %d: handler ran but request.cached is true' % k, 'cached_flag_wrong'))
-        if o['handler_gen'] is not None or o['status'] == 400:
+        if o['handler_gen'] is not None or o['status'] in (400, 412):
             continue
         where = 'thread %d %s %s?%s' % (k, method, path, qs)
         try:
@@ -759,7 +844,8 @@ def oracle_conc(scn, res):
             bad.append(('%s: response (status %s) came neither from the handler nor from a stored handler response'
                         % (where, o['status']), 'hit_unknown_generation'))
             continue
-        bad += _check_hit(where, o, op, p, g, delay, len(vary_seen.get(url, ())) > 1, overlapping=True)
+        bad += _check_hit(where, o, op, p, g, delay, len(vary_seen.get(url, ())) > 1, overlapping=True,
+                          conditional=(o['status'] == 304))
         pk = prod_thread.get(g)
         for j, oj in res['obs'].items():
             if oj is None or j == k:
@@ -890,7 +976,8 @@ def check_conc(ctx, scns, procs=None, expects=None, compare=True):
         ctx.count('conc:threads:%d' % len(scn['reqs']))
         ctx.count('conc:acts:%02d-%02d' % (len(r['acts']) // 20 * 20, len(r['acts']) // 20 * 20 + 19))
         for t in r['toks'].values():
-            ctx.count('conc:outcome:' + ('hit' if t[0] == 'H' else 'handler' if t[0] == 'M' else t))
+            ctx.count('conc:outcome:' + {'H': 'hit', 'M': 'handler', 'N': 'not-modified-from-cache',
+                                         'P': 'precondition-failed-on-cached'}.get(t[0], t))
         for a in r['acts']:
             ctx.count('conc:act:' + a[0])
         if any('ev.wait' in s for s in r['snaps']):
@@ -935,6 +1022,9 @@ def hexlist(xs):
 def model_line(case):
     c = case['cfg']
     out = ['C:%d:%d:%d:%d' % (c['delay'], c['maxobjects'], c['maxobj_size'], c['maxsize'])]   # encode: see docs
+    if c.get('expires') is not None:
+        out[0] += ':%d:%d:%d' % (c['expires']['secs'], 1 if c['expires']['force'] else 0,
+                                 0 if c['expires'].get('http10') else 1)
     for op in case['ops']:
         if op[0] == 'T':
             out.append('T%d' % op[1])
@@ -942,16 +1032,20 @@ def model_line(case):
             out.append('S')
         else:
             _, method, path, qs, hdrs, pragma, cc, plan = op
-            h = ','.join('%s=%s' % (hexs(k), hexs(v)) for k, v in sorted(hdrs.items())) if hdrs else '_'
+            allh = req_headers(op)
+            h = ','.join('%s=%s' % (hexs(k), hexs(v)) for k, v in sorted(allh.items())) if allh else '_'
             mode = plan.get('mode', 'plain')
-            vary, size = plan['vary'], plan['size']
+            vary, rcc, rpr, lm = plan_resp_headers(plan)
+            size = plan['size']
             stream = bool(plan.get('stream'))
+            etag, exp = bool(plan.get('etag')), bool(plan.get('exp'))
             if mode == 'http':
+                etag = exp = False           # clean_headers drops ETag, Last-Modified, Expires, Vary
                 # HTTPError.set_response: clean_headers drops Vary, the body is the error page; for the statuses
                 # in _ie_friendly_error_sizes it also presets Content-Length, so finalize does not drain the
                 # body: the tee runs only when the WSGI consumer iterates it, exactly like a streamed body
                 from cherrypy import _cperror
-                vary, size = [], _Env.get().error_page_size(plan['hstatus'])
+                vary, lm, size = '', '', _Env.get().error_page_size(plan['hstatus'])
                 stream = plan['hstatus'] in _cperror._ie_friendly_error_sizes
             body_fails = mode == 'exc' or (mode == 'gen' and plan.get('fail_at') is not None)
             # the client goes away only if there is something left to read after `abandon` chunks
@@ -959,11 +1053,10 @@ def model_line(case):
             nchunks = len(range(0, plan['size'], third))
             ab = plan.get('abandon')
             goes_away = ab is not None and (ab == 0 or ab < nchunks)
-            flags = ((1 if plan['ns'] else 0) + (2 if plan['pnc'] else 0) + (4 if stream else 0)
-                     + (8 if body_fails else 0) + (16 if goes_away else 0))
-            out.append('R:%s:%s:%s:%s:%s:%s:%s:%d:%d' % (
-                hexs(method), hexs(path), hexs(qs), h, hexlist(pragma or []), hexlist(cc or []),
-                hexlist(vary), size, flags))
+            flags = ((1 if stream else 0) + (2 if body_fails else 0) + (4 if goes_away else 0)
+                     + (8 if etag else 0) + (16 if exp else 0))
+            out.append('R:%s:%s:%s:%s:%s:%s:%s:%s:%d:%d' % (
+                hexs(method), hexs(path), hexs(qs), h, hexs(rcc), hexs(rpr), hexs(vary), hexs(lm), size, flags))
     return ' '.join(out)
 
 
@@ -976,6 +1069,10 @@ def canon_real(res):
             toks.append('M%d.%d' % (o['handler_gen'], 1 if (o['flags'] and o['flags'][1]) else 0))
         elif o['status'] == 400:
             toks.append('E400')
+        elif o['status'] == 304 and o['xgen'] is not None:
+            toks.append('N%s.%s' % (o['xgen'], o['age']))          # Not Modified, built from the cached headers
+        elif o['status'] == 412 and o['xgen'] is not None:
+            toks.append('P%s' % o['xgen'])                         # Precondition Failed on a cached response
         elif o['xgen'] is not None and o['flags'] and o['flags'][0]:
             toks.append('H%s.%s' % (o['xgen'], o['age']))
         else:
@@ -1000,18 +1097,29 @@ def canon_model(line):
 # ----------------------------------------------------------------------------------------------
 def _max_ages(cc):
     out = []
-    for v in cc or []:
+    for v in otokens(_raw(cc)) or []:
         if v.startswith('max-age=') and v[8:].isdigit() and v[8:].isascii():
             out.append(int(v[8:]))
     return out
 
 
-def _check_hit(where, o, op, p, g, delay, unstable, overlapping=False):
+def _no_cache_requested(op):
+    _, method, path, qs, hdrs, pragma, cc, plan = op
+    return 'no-cache' in (otokens(_raw(pragma)) or []) or 'no-cache' in (otokens(_raw(cc)) or [])
+
+
+TOOL_HEADERS = ('Pragma', 'Cache-Control', 'Expires')     # what tools.expires may add to any response it sees
+
+
+def _check_hit(where, o, op, p, g, delay, unstable, overlapping=False, conditional=False, expires=None):
     """The clauses of the statement about ONE response that did not come from the handler (`o`, answering request
-    `op`) and the handler production `p` (generation g) it claims to be: independent of the order of requests."""
+    `op`) and the handler production `p` (generation g) it claims to be: independent of the order of requests.
+    conditional: `o` is a 304 Not Modified built from the cached response (it must be justified by that response
+    like a hit, but is of course not identical to it)."""
     bad = []
     _, method, path, qs, hdrs, pragma, cc, plan = op
     url = (path, qs)
+    reqh = {k.lower(): v.strip(' \t') for k, v in req_headers(op).items()}
     # the producing response was produced and delivered to its end
     if not p['complete']:
         bad.append(('%s: served generation %d, a response whose delivery broke off (handler body '
@@ -1024,7 +1132,21 @@ def _check_hit(where, o, op, p, g, delay, unstable, overlapping=False):
     ps = sorted(tuple(x) for x in p['headers'] if x[0] not in ('Age', 'Content-Length'))
     if want_body is None:
         want_body = o['body']
-    if o['status'] != p['status'] or o['body'] != want_body or hs != ps:
+    if expires is not None:
+        # the expires tool runs on the response served from the cache as on any other: the stored headers must be
+        # there unchanged, headers the tool adds (or, forced, rewrites) are its business
+        pnames = {x[0] for x in ps}
+        hs = [x for x in hs if not (x[0] in TOOL_HEADERS and (expires['force'] or x[0] not in pnames))]
+        if expires['force']:
+            ps = [x for x in ps if x[0] not in TOOL_HEADERS]
+    if conditional:
+        # a 304 is right only if the validator the client holds is the stored response's, on a GET / HEAD
+        ims = reqh.get('if-modified-since', '')
+        if not ims or ims != (p.get('lastmod') or '') or method not in ('GET', 'HEAD') or o['body']:
+            bad.append(('%s: 304 Not Modified from the cache, but the If-Modified-Since of the request %r is not the '
+                        'Last-Modified of the stored response %r (method %s)' % (where, ims, p.get('lastmod'), method),
+                        'not_modified_unjustified'))
+    elif o['status'] != p['status'] or o['body'] != want_body or hs != ps:
         bad.append(('%s: cached response differs from what the handler produced as generation %d '
                     '(status %s/%s, body %r/%r, headers %s/%s)'
                     % (where, g, o['status'], p['status'], o['body'][:20], want_body[:20], hs, ps),
@@ -1037,10 +1159,10 @@ def _check_hit(where, o, op, p, g, delay, unstable, overlapping=False):
         bad.append(('%s: served generation %d which was produced for %s' % (where, g, p['url']), sig))
     # same value of every request header named in that response's Vary
     for hname in p['vary']:
-        if hdrs.get(hname, '') != p['hdrs'].get(hname, ''):
+        if reqh.get(hname.lower(), '') != p['hdrs'].get(hname.lower(), ''):
             bad.append(('%s: served generation %d (Vary %s) produced for %s=%r to a request with %s=%r'
-                        % (where, g, p['vary'], hname, p['hdrs'].get(hname, ''), hname,
-                           hdrs.get(hname, '')),
+                        % (where, g, p['vary'], hname, p['hdrs'].get(hname.lower(), ''), hname,
+                           reqh.get(hname.lower(), '')),
                         'F16b:vary_list_changed' if unstable else 'hit_vary_mismatch'))
             break
     # fresh: no longer ago than delay / the request's smaller max-age (whole seconds)
@@ -1071,7 +1193,7 @@ def _check_hit(where, o, op, p, g, delay, unstable, overlapping=False):
         bad.append(('%s: served generation %d although the %s was marked no-store'
                     % (where, g, 'request' if p['req_no_store'] else 'response'), 'no_store_served'))
     # request no-cache reaches the handler
-    if (pragma and 'no-cache' in pragma) or (cc and 'no-cache' in cc):
+    if _no_cache_requested(op):
         bad.append(('%s: request carried no-cache but the handler was not reached' % where,
                     'no_cache_request_served_from_cache'))
     return bad
@@ -1091,11 +1213,12 @@ def oracle(case, res):
             continue
         _, method, path, qs, hdrs, pragma, cc, plan = op
         url = (path, qs)
-        served_from_cache = o['handler_gen'] is None and o['status'] != 400
+        # 412 Precondition Failed on a cached response is an error answer, not "a response served from the cache"
+        served_from_cache = o['handler_gen'] is None and o['status'] not in (400, 412)
         if o['handler_gen'] is not None:
             prod_idx[o['handler_gen']] = i
             if o['status'] < 500:
-                vary_seen.setdefault(url, set()).add(tuple(sorted(prods[o['handler_gen']]['vary'])))
+                vary_seen.setdefault(url, set()).add(tuple(sorted({v.lower() for v in prods[o['handler_gen']]['vary']})))
             if o['flags'] and o['flags'][0]:
                 bad.append(('op %d: handler ran but request.cached is true' % i, 'cached_flag_wrong'))
         if served_from_cache:
@@ -1110,7 +1233,8 @@ def oracle(case, res):
                 bad.append(('%s: response (status %s) came neither from the handler nor from a stored handler '
                             'response' % (where, o['status']), 'hit_unknown_generation'))
             else:
-                bad += _check_hit(where, o, op, p, g, delay, len(vary_seen.get(url, ())) > 1)
+                bad += _check_hit(where, o, op, p, g, delay, len(vary_seen.get(url, ())) > 1,
+                                  conditional=(o['status'] == 304), expires=case['cfg'].get('expires'))
                 # not across an invalidating request
                 if url in inval_time_idx and prod_idx.get(g, -1) < inval_time_idx[url]:
                     bad.append(('%s: served generation %d stored before the %s at op %d'
@@ -1124,7 +1248,7 @@ def oracle(case, res):
                 bad.append(('%s: directly after a %s to the same URL the handler was not reached'
                             % (where, last_req[url]), 'served_after_invalidation'))
             # request no-cache reaches the handler (part of _check_hit when the generation is known)
-            if p is None and ((pragma and 'no-cache' in pragma) or (cc and 'no-cache' in cc)):
+            if p is None and _no_cache_requested(op):
                 bad.append(('%s: request carried no-cache but the handler was not reached' % where,
                             'no_cache_request_served_from_cache'))
         last_req[url] = method
@@ -1144,7 +1268,10 @@ VALUES = ['p', 'q', 'p', 'q', '', 'X-A', 'X-B', 'r']
 def gen_cfg(rng):
     delay = rng.choice([1, 2, 2, 3, 5, 10])
     tight = rng.random() < 0.25
-    return {'delay': delay, 'encode': rng.random() < 0.25,
+    expires = None
+    if rng.random() < 0.12:
+        expires = {'secs': rng.choice([0, 0, 60, 3600]), 'force': rng.random() < 0.25, 'http10': rng.random() < 0.2}
+    return {'delay': delay, 'encode': rng.random() < 0.25, 'expires': expires,
             'maxobjects': rng.choice([1, 2, 3, 4]) if tight and rng.random() < 0.6 else 1000,
             'maxobj_size': rng.choice([12, 13, 20, 21, 40]) if tight and rng.random() < 0.5 else 100000,
             'maxsize': rng.choice([24, 32, 33, 40, 52, 60, 100]) if tight and rng.random() < 0.6 else 10000000}
@@ -1167,6 +1294,51 @@ def gen_cc(rng, delay):
         ['max-age='], ['max-age=5', 'max-age=100'], ['max-age=100', 'max-age=%d' % delay], ['no-cache=x'],
         ['only-if-cached'], ['private', ma], ['zzz', ma], ['no-cache', 'max-age=abc'], ['no-store', 'no-cache'],
         ['max-age=007'], ['max-age=' + '9' * 18], ['max-age=1' + '0' * 18], ['max-age=\xb2'], ['public', 'no-store=1'], ['max-age=1=2'], ['xno-cache'], ['no-cachex', ma]])
+
+
+LASTMODS = ['Mon, 01 Jan 2024 00:00:00 GMT', 'Tue, 02 Jan 2024 10:20:30 GMT']
+SEPS = [', ', ', ', ',', ' , ', ',\t', ',  ', ', ,', ' ,']
+PADS = ['', '', '', ' ', '\t', '  ', '\x0b', '\xa0', '\x1f ', '\x85']
+
+
+def _recase(rng, tok):
+    r = rng.random()
+    if r < 0.5:
+        return tok.upper()
+    if r < 0.8:
+        return tok.title()
+    return ''.join(c.upper() if rng.random() < 0.5 else c.lower() for c in tok)
+
+
+def render_list(rng, toks, names=False):
+    """A comma-separated header value the way clients / proxies / applications really write it: varying white
+    space (also characters only Python's strip() removes), empty elements, parameters, quoted strings that
+    contain commas, upper / mixed case, repeated elements, several header lines folded into one."""
+    out = []
+    for t in toks:
+        r = rng.random()
+        if r < 0.06:
+            t = _recase(rng, t)
+        elif r < 0.10:
+            t = t + rng.choice([';q=1', ' ; x=y', ';', ';a="b,c"', '; q="\\""'])
+        elif r < 0.12:
+            t = '"%s"' % t
+        elif r < 0.14 and not names:
+            t = rng.choice(['foo="a, %s"' % t, 'x="%s, b"' % t, 'community="UCI, %s"' % t])
+        elif r < 0.16:
+            out.append(t)                     # the same element twice
+        out.append(rng.choice(PADS) + t + rng.choice(PADS))
+    if rng.random() < 0.05:
+        out.insert(rng.randrange(len(out) + 1), rng.choice(['', ' ', 'x="', '"', 'a=\\"b']))
+    sep = rng.choice(SEPS)
+    return sep.join(out) if rng.random() < 0.7 else ''.join(o + rng.choice(SEPS) for o in out[:-1]) + out[-1]
+
+
+def raw_variant(rng, toks, names=False):
+    """The element list as it is (joined with ', ' by req_headers) or one of its wire spellings."""
+    if not toks:
+        return toks
+    return render_list(rng, list(toks), names) if rng.random() < 0.3 else toks
 
 
 def gen_outcome(rng):
@@ -1202,6 +1374,8 @@ def gen_case(rng, unstable=None, long=False):
         policy[u] = names
     if unstable is None:
         unstable = rng.random() < 0.04
+    odd_spelling = rng.random() < 0.35
+    lastmod = {u: (rng.choice(LASTMODS) if rng.random() < 0.3 else None) for u in urls}
     vals = rng.sample(VALUES, rng.choice([2, 2, 3])) if rng.random() < 0.8 else ['p', 'q']
     n = rng.randint(30, 60) if long else rng.choice([3, 5, 8, 12, 16, 20, 25, 30, 40, 50, 60])
     ops = []
@@ -1210,11 +1384,12 @@ def gen_case(rng, unstable=None, long=False):
     nreq = 0
     while len(ops) < n:
         u = rng.choice(urls)
-        method = rng.choices(['GET', 'HEAD', 'POST', 'PUT', 'DELETE'], weights=[66, 9, 9, 8, 8])[0]
+        method = rng.choices(['GET', 'HEAD', 'POST', 'PUT', 'DELETE', 'PATCH', 'OPTIONS'],
+                             weights=[64, 9, 9, 7, 7, 2, 2])[0]
         hdrs = {}
         for hname in HDRS:
             if rng.random() < 0.85:
-                hdrs[hname] = rng.choice(vals)
+                hdrs[hname if rng.random() < 0.9 else _recase(rng, hname)] = rng.choice(vals)
         if ops and rng.random() < 0.35:
             # re-issue an earlier request's selecting values, possibly permuted across headers
             prev = rng.choice([o for o in ops if o[0] == 'R'] or [None])
@@ -1225,19 +1400,48 @@ def gen_case(rng, unstable=None, long=False):
                     hdrs[a], hdrs[b] = hdrs[b], hdrs[a]
                 if rng.random() < 0.5:
                     u = (prev[2], prev[3])
+                for k in [k for k in hdrs if k.lower().startswith('if-')]:
+                    del hdrs[k]
         pragma = None
         r = rng.random()
         if r < 0.07:
             pragma = ['no-cache']
         elif r < 0.10:
             pragma = rng.choice([['foo'], ['foo', 'no-cache'], ['no-cache', 'foo'], ['no-cachex']])
-        cc = gen_cc(rng, delay)
+        pragma = raw_variant(rng, pragma)
+        cc = raw_variant(rng, gen_cc(rng, delay))
         vary = list(policy[u])
         if unstable and rng.random() < 0.4:
             vary = rng.sample(HDRS, rng.randint(0, 3))
         plan = {'vary': vary,
                 'size': rng.choices([0, 12, 20, 40], weights=[5, 50, 30, 15])[0],
                 'ns': rng.random() < 0.06, 'pnc': rng.random() < 0.05}
+        # how the application spells its headers: case of the names in Vary, white space, `*`, parameters
+        if vary and odd_spelling and rng.random() < 0.5:
+            names = [v if rng.random() < 0.6 else _recase(rng, v) for v in vary]
+            if rng.random() < 0.15:
+                names.append(rng.choice(names).lower())
+            if rng.random() < 0.06:
+                names.append('*')
+            plan['vary_raw'] = render_list(rng, names, names=True)
+        elif odd_spelling and rng.random() < 0.03:
+            plan['vary_raw'] = rng.choice(['*', ' * ', '*, X-A'])
+        if plan['ns'] and rng.random() < 0.3:
+            plan['rcc_raw'] = render_list(rng, rng.choice([['no-store'], ['private', 'no-store'], ['no-store', 'max-age=0']]))
+        elif rng.random() < 0.03:
+            plan['rcc_raw'] = rng.choice(['No-Store', 'no-store;x=1', 'private', 'x="a, no-store"', 'no-storex', 'max-age=60'])
+        if plan['pnc'] and rng.random() < 0.3:
+            plan['rpragma_raw'] = render_list(rng, ['no-cache'])
+        # validators: the resource's Last-Modified (stable per URL, sometimes changing), the client's copy of it
+        if lastmod.get(u) is not None:
+            plan['lastmod'] = lastmod[u] if rng.random() < 0.9 else rng.choice(LASTMODS)
+        if rng.random() < (0.3 if lastmod.get(u) is not None else 0.04):
+            which = rng.choice(['If-Modified-Since', 'If-Modified-Since', 'If-Unmodified-Since', 'both'])
+            for name in (['If-Modified-Since', 'If-Unmodified-Since'] if which == 'both' else [which]):
+                hdrs[name] = rng.choice([lastmod.get(u) or LASTMODS[0]] * 3 + LASTMODS + ['garbage', ' ' + LASTMODS[0]])
+        if cfg.get('expires') is not None or rng.random() < 0.03:
+            plan['etag'] = rng.random() < 0.3
+            plan['exp'] = rng.random() < 0.15
         plan.update(gen_outcome(rng))
         ops.append(['R', method, u[0], u[1], hdrs, pragma, cc, plan])
         req_times.append(now)
@@ -1311,7 +1515,8 @@ def check_cases(ctx, cases, compare=True, procs=None):
         ctx.count('ops:%02d-%02d' % (len(case['ops']) // 10 * 10, len(case['ops']) // 10 * 10 + 9))
         for t in r['toks']:
             if t != '-':
-                ctx.count('outcome:' + ('hit' if t[0] == 'H' else 'handler' if t[0] == 'M' else t))
+                ctx.count('outcome:' + {'H': 'hit', 'M': 'handler', 'N': 'not-modified-from-cache',
+                                        'P': 'precondition-failed-on-cached'}.get(t[0], t))
         for op in case['ops']:
             if op[0] == 'R':
                 ctx.count('method:' + op[1])
@@ -1322,9 +1527,23 @@ def check_cases(ctx, cases, compare=True, procs=None):
                                                     ':fail@%s' % pl['fail_at'] if pl.get('fail_at') is not None else '',
                                                     ':abandon' if pl.get('abandon') is not None else ''))
                 if op[6]:
-                    ctx.count('cc:' + ('max-age' if any(v.startswith('max-age') for v in op[6]) else op[6][0]))
+                    toks = otokens(_raw(op[6]))
+                    ctx.count('cc:' + ('malformed' if toks is None else 'max-age' if any(v.startswith('max-age') for v in toks)
+                                       else (toks[0] if toks[0] in ('no-cache', 'no-store') else 'other')))
+                    if isinstance(op[6], str):
+                        ctx.count('cc:wire-spelling')
                 if op[5]:
-                    ctx.count('pragma')
+                    ctx.count('pragma' + (':wire-spelling' if isinstance(op[5], str) else ''))
+                if pl.get('vary_raw') is not None:
+                    ctx.count('vary:wire-spelling' + (':star' if '*' in pl['vary_raw'] else ''))
+                if pl.get('lastmod'):
+                    ctx.count('resp:last-modified')
+                if case['cfg'].get('expires') is not None:
+                    ctx.count('tools.expires:secs=%s%s' % (case['cfg']['expires']['secs'],
+                                                           ':force' if case['cfg']['expires']['force'] else ''))
+                for hn in op[4]:
+                    if hn.lower().startswith('if-'):
+                        ctx.count('req:' + hn.lower())
             else:
                 ctx.count('op:' + op[0])
         for what, sig in r['bad']:
@@ -1395,6 +1614,140 @@ def witness_case(e):
 
 
 # ----------------------------------------------------------------------------------------------
+# every function of CpModel.CacheHdr / the conditional stage against the live function, on generated inputs
+# ----------------------------------------------------------------------------------------------
+class _Obj:
+    pass
+
+
+def _live_values(v):
+    from cherrypy.lib import httputil
+    return sorted(e.value for e in httputil.header_elements('Cache-Control', v))
+
+
+def _live_validate_since(method, ims, ius, lm):
+    env = _Env.get()
+    cp = env.cherrypy
+    from cherrypy.lib import cptools, httputil
+    req, resp = _Obj(), _Obj()
+    req.method = method
+    req.headers = httputil.HeaderMap()
+    if ims:
+        req.headers['If-Modified-Since'] = ims
+    if ius:
+        req.headers['If-Unmodified-Since'] = ius
+    resp.headers = httputil.HeaderMap()
+    resp.status = ''                 # as it still is when caching.get calls validate_since
+    if lm:
+        resp.headers['Last-Modified'] = lm
+    old = (getattr(cp.serving, 'request', None), getattr(cp.serving, 'response', None))
+    cp.serving.request, cp.serving.response = req, resp
+    try:
+        cptools.validate_since()
+        return 'serve'
+    except cp.HTTPRedirect as e:
+        return str(e.status)
+    except cp.HTTPError as e:
+        return str(e.status)
+    finally:
+        cp.serving.request, cp.serving.response = old
+
+
+def _live_expires(secs, force, http11, bits, as_delta):
+    import datetime
+    env = _Env.get()
+    cp = env.cherrypy
+    from cherrypy.lib import httputil
+    req, resp = _Obj(), _Obj()
+    req.protocol = (1, 1) if http11 else (1, 0)
+    resp.headers = httputil.HeaderMap()
+    resp.time = 1000000.0
+    names = ['Etag', 'Last-Modified', 'Age', 'Expires', 'Pragma', 'Cache-Control']
+    for i, n in enumerate(names):
+        if bits >> i & 1:
+            resp.headers[n] = 'orig'
+    old = (getattr(cp.serving, 'request', None), getattr(cp.serving, 'response', None))
+    cp.serving.request, cp.serving.response = req, resp
+    try:
+        env.caching.expires(secs=datetime.timedelta(seconds=secs) if as_delta else secs, force=force)
+    finally:
+        cp.serving.request, cp.serving.response = old
+    h = resp.headers
+    pr = 1 if h.get('Pragma') == 'no-cache' else 0
+    cc = 1 if h.get('Cache-Control') == 'no-cache, must-revalidate' else 0
+    ex = h.get('Expires')
+    if ex == ('orig' if bits >> 3 & 1 else None):
+        d = 'none'
+    elif ex == httputil.HTTPDate(1169942400.0):
+        d = 'past'
+    elif ex == httputil.HTTPDate(resp.time + secs):
+        d = '+%d' % secs
+    else:
+        d = 'other:%r' % (ex,)
+    return '%d%d:%s' % (pr, cc, d)
+
+
+def gen_function_inputs(rng, n):
+    """(driver line, thunk computing the live answer) pairs."""
+    out = []
+    alpha = 'abno-cachestrmxg=;,", \t\\019' + '\x0b\xa0\x85'
+    toks = ['no-cache', 'no-store', 'max-age=5', 'max-age=0', 'private', 'x="a,b"', 'X-A', 'x-b', '*', 'foo;q=1']
+    for i in range(n):
+        k = i % 5
+        if k == 0:
+            if rng.random() < 0.6:
+                v = render_list(rng, rng.sample(toks, rng.randint(1, 4)))
+            else:
+                v = ''.join(rng.choice(alpha) for _ in range(rng.randint(0, 14)))
+            out.append(('HV:' + hexs(v), lambda v=v: ','.join(hexs(x) for x in _live_values(v)) or '_', 'values'))
+        elif k == 1:
+            v = ''.join(rng.choice('abzABZ09-_* .xX') for _ in range(rng.randint(0, 10)))
+            out.append(('TI:' + hexs(v), lambda v=v: hexs(v.title()), 'title'))
+        elif k == 2:
+            v = ''.join(rng.choice(' \t\n\x0b\x0c\r\x1c\x1f\x85\xa0ab\x00\x7f\xad') for _ in range(rng.randint(0, 8)))
+            out.append(('ST:' + hexs(v), lambda v=v: hexs(v.strip()), 'strip'))
+        elif k == 3:
+            method = rng.choice(['GET', 'HEAD', 'PATCH', 'OPTIONS', 'get'])
+            vals = [''] * 2 + LASTMODS + ['garbage']
+            ims, ius, lm = rng.choice(vals), rng.choice(vals), rng.choice(vals)
+            out.append(('VS:%s:%s:%s:%s' % (hexs(method), hexs(ims), hexs(ius), hexs(lm)),
+                        lambda a=(method, ims, ius, lm): _live_validate_since(*a), 'validate_since'))
+        else:
+            secs = rng.choice([0, 0, 1, 60, 3600, -5, 86400 * 2])
+            force, h11, bits = rng.random() < 0.4, rng.random() < 0.7, rng.randrange(64)
+            as_delta = rng.random() < 0.3 and secs >= 0
+            out.append(('EX:%d:%d:%d:%d' % (secs, force, h11, bits),
+                        lambda a=(secs, force, h11, bits, as_delta): _live_expires(*a), 'expires'))
+    return out
+
+
+def check_functions(ctx, n):
+    items = gen_function_inputs(ctx.rng, n)
+    # exhaustive part: the expires tool over all presence combinations x secs in {0, 60} x force x protocol
+    for secs in (0, 60):
+        for force in (False, True):
+            for h11 in (False, True):
+                for bits in range(64):
+                    items.append(('EX:%d:%d:%d:%d' % (secs, force, h11, bits),
+                                  lambda a=(secs, force, h11, bits, False): _live_expires(*a), 'expires'))
+    out = ctx.model([l for l, _, _ in items])
+    for (line, thunk, what), mo in zip(items, out or [None] * len(items)):
+        try:
+            live = thunk()
+        except Exception as e:        # an exception of the code under test is an observation
+            live = 'EXC:' + type(e).__name__
+        if line.startswith('HV:') and mo is not None and mo != '_':
+            mo = ','.join(sorted(mo.split(','), key=lambda h: bytes.fromhex(h) if h != '-' else b''))
+        case = {'function': what, 'line': line}
+        ctx.case(case, nontrivial=True, key=line)
+        ctx.count('fn:' + what)
+        if mo is not None:
+            ctx.compared()
+            if mo != live:
+                ctx.disagree(case, live, mo, 'model function %s differs from the live function' % what)
+
+
+# ----------------------------------------------------------------------------------------------
 # tables regenerated from the live modules
 # ----------------------------------------------------------------------------------------------
 def _lean_str(s):
@@ -1431,9 +1784,13 @@ def defaultMaxsize : Nat := %d
     `put` records the selecting header NAMES as the key to delete? -/
 def sweepKeyIsNames : Bool := %s
 
+/-- code points below 256 for which `str.isspace()` holds (what `str.strip()` removes) -/
+def pyWhitespace : List Nat := [%s]
+
 end CpModel.Gen.C15
 ''' % (', '.join(_lean_str(m) for m in inv), int(mc.delay), int(mc.maxobjects), int(mc.maxobj_size),
-       int(mc.maxsize), 'true' if by_names else 'false')
+       int(mc.maxsize), 'true' if by_names else 'false',
+       ', '.join(str(c) for c in range(256) if chr(c).isspace()))
     return {'CpModel/Gen/C15Tables.lean': src}
 
 
@@ -1446,6 +1803,7 @@ def run(ctx):
     check_cases(ctx, [c for c in corpus_cases() if 'stampede' not in c and 'conc' not in c])
     check_conc(ctx, [stampede_to_conc(c['stampede']) for c in corpus_cases() if 'stampede' in c])
     procs = min(ctx.budget(8, 16), os.cpu_count() or 4)
+    check_functions(ctx, ctx.budget(1500, 40000))
     # interleavings: real request threads + the real expiry thread, one shared-state access per step, every
     # step's shared state compared with CpModel.CacheConc
     cc = [c for c in corpus_cases() if 'conc' in c]
@@ -1473,6 +1831,8 @@ def search(ctx, around=None):
     """Deeper oracle-only hunt (called when the proof or the correspondence broke)."""
     procs = min(16, os.cpu_count() or 4)
     cases = []
+    if around is not None and 'conc' not in around and 'cfg' not in around:
+        around = None          # a function-level difference: hunt over everything
     if around is not None and 'conc' in around:
         # the disagreement was found under an interleaving: hunt there first (same configuration, then any)
         scns = []
@@ -1497,6 +1857,11 @@ def search(ctx, around=None):
 
 
 def replay(ctx, case):
+    if 'function' in case:
+        m = ctx.model([case['line']])
+        print('line :', case['line'])
+        print('model:', m[0] if m else None)
+        return
     if 'stampede' in case:
         case = {'conc': stampede_to_conc(case['stampede'])}
     if 'conc' in case:
